@@ -33,6 +33,13 @@ mod router;
 mod segments;
 mod server;
 
+/// Verification hooks (`cfg(kani)` only): re-exports of crate-private items for proof harnesses.
+#[cfg(kani)]
+pub mod verif_api {
+    pub use crate::router::verif_api::*;
+    pub use crate::segments::{CommitLog, Position, Storage};
+}
+
 pub type ConnectionId = usize;
 pub type RouterId = usize;
 pub type NodeId = usize;
